@@ -92,9 +92,9 @@ def build_args(argv):
     return got["ns"]
 
 
-def write_csv(case, path):
+def write_csv(case, path, part=0):
     import random
-    rng = random.Random(case["dataseed"])
+    rng = random.Random(case["dataseed"] + 7919 * part)
     cols = case["cols"]
     k = len(cols) - 1
     with open(path, "w") as f:
@@ -133,8 +133,21 @@ def run_pipeline(case, idx):
     tr, cr = _PIPE["tr"], _PIPE["cr"]
     base = os.path.join(os.environ.get("OUTRANK_VERIF_DIR", "/verif"), ".cache", "c17", str(os.getpid()), "case%d" % idx)
     shutil.rmtree(base, ignore_errors=True)
-    os.makedirs(os.path.join(base, "in"))
-    write_csv(case, os.path.join(base, "in", "data.csv"))
+    nparts = int(case.get("parts", 1))
+    if nparts <= 1:
+        os.makedirs(os.path.join(base, "in"))
+        write_csv(case, os.path.join(base, "in", "data.csv"))
+        data_path = os.path.join(base, "in")
+    else:
+        # several input files: --data_path is a glob (task_ranking iterates glob.glob(data_path)); csv-raw reads the header
+        # from the literal path, so a directory with the literal name holds a header-only copy
+        for k in range(nparts):
+            os.makedirs(os.path.join(base, "p%d" % (k + 1)))
+            write_csv(case, os.path.join(base, "p%d" % (k + 1), "data.csv"), part=k)
+        lit = "p[%s]" % "".join(str(k + 1) for k in range(nparts))
+        os.makedirs(os.path.join(base, lit))
+        write_csv(dict(case, nrows=0), os.path.join(base, lit, "data.csv"))
+        data_path = os.path.join(base, lit)
     old = os.getcwd()
     os.chdir(base)
     for g in ("GLOBAL_CARDINALITY_STORAGE", "GLOBAL_COUNTS_STORAGE", "GLOBAL_RARE_VALUE_STORAGE", "GLOBAL_PRIOR_COMB_COUNTS",
@@ -142,7 +155,7 @@ def run_pipeline(case, idx):
         if hasattr(cr, g):
             getattr(cr, g).clear()
     random.seed(a=123, version=2)
-    argv = ["--task", "ranking", "--data_path", os.path.join(base, "in"), "--data_source", "csv-raw",
+    argv = ["--task", "ranking", "--data_path", data_path, "--data_source", "csv-raw",
             "--output_folder", os.path.join(base, "out"), "--minibatch_size", str(case["minibatch"]), "--subsampling", "1",
             "--heuristic", case["heuristic"], "--target_ranking_only", "False", "--label_column", case["cols"][-1],
             "--include_cardinality_in_feature_names", "False", "--disable_tqdm", "True", "--num_threads", "1",
@@ -153,21 +166,38 @@ def run_pipeline(case, idx):
         cap["args"] = a
         cap["kwargs"] = k
         return _PIPE["real"](*a, **k)
+
+    real_eim = tr.estimate_importances_minibatches
+    cap["frames"] = []
+
+    def eim_wrapper(*a, **k):
+        ret = real_eim(*a, **k)
+        try:                                  # the per-file triplet frame, in the order task_ranking concatenates them
+            df = ret[1]
+            if df is not None:
+                cap["frames"].append([[str(x), str(y), float(z).hex()] for x, y, z in
+                                      zip(df.iloc[:, 0].tolist(), df.iloc[:, 1].tolist(), df.iloc[:, 2].tolist())])
+        except Exception:
+            cap["frames"] = None
+        return ret
     res = {"ok": True}
     try:
         args = build_args(argv)
         tr.Pool = SerialPool
         tr.rank_features_3MR = wrapper
+        tr.estimate_importances_minibatches = eim_wrapper
         try:
             tr.outrank_task_conduct_ranking(args)
         except SystemExit as e:
             res["exit"] = str(e)
         finally:
             tr.rank_features_3MR = _PIPE["real"]
+            tr.estimate_importances_minibatches = real_eim
         trip = read_tsv(os.path.join(base, "out", "pairwise_ranks.tsv"))
         ranks = read_tsv(os.path.join(base, "out", "3mr_ranks.tsv"))
         res["triplets"] = None if trip is None else [[r[0], r[1], float(r[2]).hex()] for r in trip[1:]]
         res["ranks"] = None if ranks is None else [[r[0], r[1]] for r in ranks[1:]]
+        res["triplets_in_code_order"] = None if not cap.get("frames") else [t for fr in cap["frames"] for t in fr]
         if "args" in cap and len(cap["args"]) >= 3 and not cap["kwargs"]:
             def fl(x):
                 x = float(x)
